@@ -580,6 +580,11 @@ def r19_4(ctx, m):
                     max_updates[norm(t)] = (g, s)
                 ctx.check(ok, "R19.4", f.where(s), f"`{norm(t)}` is a running maximum: assigned only under `{norm(t)} < value` with the same value (last-writer-wins would depend on record order)", key_of(f, f"max:{norm(s)}"), why=None if ok else why)
     ctx.require_count("R19.4", n, 4, f.where(m.loop), "accumulator updates in the record loop")
+    from .shared import groupby_tables
+
+    groupby_tables(ctx, [f], "R19.4")
+    if getattr(m, "insert", None) is None and not any(i.verdict == "violated" and i.rule == "R19.4" for i in ctx.instances):
+        raise AnalysisError("R19.4", f.where(m.loop), "cannot find where the per-read table gets a new entry inside the record loop (insert-if-absent): the per-read maxima are not decided")
     # every per-read value that the report reads after the loop is kept up to date inside it
     after = []
     seen_loop = False
